@@ -38,6 +38,7 @@ RULE = (
     'targets are fetched exactly once. The same comparison after serialise+reparse (normal and minified, several target '
     'encodings) and through script.csscombine on a real temporary directory tree. Non-trivial: urls: >= 2 URLs with one '
     'nested in @media/@page/function; flatten: an import from another directory, a media edge or depth >= 2.'
+    " URL forms also: query-only ('?img=logo'), directory ('.', './', 'img/..', '../') and scheme-like ('./a:b.png') references."
 )
 ASSUMPTIONS = [
     'urls: unknown at-rules and @namespace URIs are not "url() values of the sheet"; @variables are not generated',
